@@ -23,7 +23,10 @@ CONSTANTS
     ShapeChoices,            \* subset of Shapes
     BugBoundKeepsFirst,      \* sensitivity: the signature of a bound method keeps the first parameter
     BugAsyncGenWrapped,      \* sensitivity: the runtime view wraps an async generator's return type in Coroutine
-    FixedDeclaredReturn      \* FALSE = current code (deviation Dev_DeclaredReturnErasesNames is modelled)
+    FixedDeclaredReturn,     \* FALSE = current code (deviation Dev_DeclaredReturnErasesNames is modelled)
+    FixedAsyncGenInferred    \* TRUE = current code (repo b243661): the value inferred for a call of an unannotated async
+                             \* generator function is not wrapped in Coroutine; FALSE = the behaviour before that repair
+                             \* (kept as a sensitivity switch: DefShapes.oldasyncgen.cfg must be rejected)
 
 Shapes == {"method", "classmethod", "staticmethod", "wraps", "retyped", "generator"}
 MethodShapes == {"method", "classmethod", "staticmethod"}
@@ -142,12 +145,19 @@ RefKnowsNothing(sig) ==
 Dev_DeclaredReturnErasesNames(c) == ~FixedDeclaredReturn /\ c.shape = "retyped"
 Dev_DeclaredReturnCall(c, kws) == Dev_DeclaredReturnErasesNames(c) /\ "s" \in kws
 
-\* Known deviation: for a def WITHOUT a return annotation the defining module infers the call's value from the body
-\* (name_check_visitor.py:2160 _set_argspec_to_retval); :2186 wraps that value in Coroutine for every `async def`, also
-\* for one that yields -- but calling an async generator function returns an async generator, nothing awaitable.  In
-\* the defining module (next to a nested def and at module level) a call of such a function is therefore a Coroutine
-\* ("missing_await"; `async for` over it: "Coroutine is not async iterable"); an importing module sees Any.
-Dev_AsyncGenInferredCoroutine(c) == c.shape = "generator" /\ c.h.isasync /\ c.h.ret = NoAnn
+\* A call's value where the def has NO return annotation: the defining module infers it from the body
+\* (name_check_visitor.py:2160 _set_argspec_to_retval) and wraps it in Coroutine for an `async def` that does not yield
+\* (:2186-2190; before repo b243661 for every `async def`, also an async generator function: "missing_await" and
+\* "Coroutine is not async iterable" in the defining module only).  With a return annotation, and for an importer, the
+\* signature's return type is the call's value (ShapeRet / ShapeRetRt).
+ImplCallAwaitableDefining(c) ==
+    c.h.isasync /\ (c.shape # "generator" \/ (c.h.ret = NoAnn /\ ~FixedAsyncGenInferred))
+ImplCallAwaitableImporter(c) == c.h.isasync /\ (c.shape # "generator" \/ BugAsyncGenWrapped)
+\* Ref (CPython data model): calling a function yields an awaitable iff it is a coroutine function -- an `async def`
+\* whose body does not yield; an async generator function returns an async generator, which cannot be awaited
+RefCallAwaitable(c) == c.h.isasync /\ c.shape # "generator"
+\* the class of the repaired defect (excuses nothing unless the switch says the old code is being checked)
+Dev_AsyncGenInferredCoroutine(c) == ~FixedAsyncGenInferred /\ c.shape = "generator" /\ c.h.isasync /\ c.h.ret = NoAnn
 
 ShapeViewsAgreeModulo(c, devOK) ==
     LET h == c.h s == c.shape
@@ -187,4 +197,8 @@ SNext == AddParam \/ FinishHeaderS \/ ChooseShape
 
 ShapeViewsAgree == stage = "done" => ShapeViewsAgreeModulo(case, TRUE)
 ShapeViewsAgreeStrict == stage = "done" => ShapeViewsAgreeModulo(case, FALSE)
+\* a call is awaitable exactly if CPython's is, in the defining module and for an importer alike
+CallAwaitableAgrees ==
+    (stage = "done" /\ case.shape \in {"generator"} \cup MethodShapes) =>
+        (ImplCallAwaitableDefining(case) = RefCallAwaitable(case) /\ ImplCallAwaitableImporter(case) = RefCallAwaitable(case))
 =============================================================================
